@@ -33,6 +33,7 @@ class Config:
     emit: tuple = ()                 # tuple of (node index, emit pattern) - C19
     fault_exc: str = 'boom'          # what a faulty task raises: 'boom' (Exception) | 'exit' (SystemExit)
     corrupt: tuple = ()              # pre-cached nodes whose stored result file is damaged (metadata intact)
+    history: str = ''                # what the same Lab object went through before the measured call: '' | 'failed-run_task'
     loglevel: str = 'INFO'           # level of the caller's labtech logger: 'INFO', or 'NOTSET' (then the root logger is at INFO) - C19
 
     def to_json(self):
@@ -48,7 +49,7 @@ class Config:
                       bust_cache=d['bust_cache'], cof=d['cof'], batch=d['batch'], stutter=d['stutter'],
                       context=None if d['context'] is None else tuple(tuple(x) for x in d['context']),
                       emit=tuple(tuple(x) for x in d.get('emit', ())), fault_exc=d.get('fault_exc', 'boom'),
-                      corrupt=tuple(d.get('corrupt', ())), loglevel=d.get('loglevel', 'INFO'))
+                      corrupt=tuple(d.get('corrupt', ())), loglevel=d.get('loglevel', 'INFO'), history=d.get('history', ''))
 
     def brief(self):
         return {'deps': self.spec.deps, 'types': self.spec.types, 'place': self.spec.place,
@@ -56,7 +57,23 @@ class Config:
                 'precached': self.precached, 'faults': self.faults, 'died': self.died,
                 'bust': self.bust_cache, 'cof': self.cof, **({'emit': self.emit} if self.emit else {}),
                 **({'fault_exc': self.fault_exc} if self.fault_exc != 'boom' else {}),
-                **({'corrupt': self.corrupt} if self.corrupt else {}), **({'loglevel': self.loglevel} if self.loglevel != 'INFO' else {})}
+                **({'corrupt': self.corrupt} if self.corrupt else {}), **({'loglevel': self.loglevel} if self.loglevel != 'INFO' else {}), **({'history': self.history} if self.history else {})}
+
+
+def lab_history(lab, cfg, events=None):
+    """Start from a non-initial state of the Lab OBJECT: it has already been through an earlier call.
+    'failed-run_task': Lab.run_task of an unrelated task that fails (whatever that raises is the
+    caller's business) - nothing of it may change how the next call treats failures."""
+    if cfg.history == 'failed-run_task':
+        U.WORLD.reset(epoch=7, faults=[900])
+        try:
+            lab.run_task(U.TN(label=900), disable_progress=True, disable_top=True)
+        except (Spin, HarnessError):
+            raise
+        except BaseException:  # noqa
+            pass
+        if events is not None:
+            del events[:]
 
 
 def call_run(lab, req, cfg, **kw):
@@ -99,6 +116,9 @@ def run_once(cfg: Config, chooser: Chooser) -> Obs:
         req = [built.get(i, fr) for i, fr in cfg.requested]
         lab = labtech.Lab(storage=storage, runner_backend=backend, continue_on_failure=cfg.cof,
                           notebook=False, context=ctx)
+        if cfg.history:
+            lab_history(lab, cfg, backend.events)
+            U.WORLD.reset(epoch=1, faults=fault_labels, fault_exc=cfg.fault_exc)
         try:
             res = call_run(lab, req, cfg, disable_progress=True, disable_top=True)
             outcome = ('return', res)
